@@ -95,12 +95,23 @@ def declarations():
     d.append(('implicit', None))
     d.append(('ic-only', None))
     d.append(('ic-only-reversed', None))
+    d.append(('incremental', None))
     return d
 
 
 def build(rxs, decl):
     from bioscrape.types import Model
     how, order = decl
+    if how == 'incremental':
+        # the first reaction at construction, an initialisation, then the others one by one (each edit invalidates the model)
+        params = list(PARAMS.items())
+        ic = {s: STATES[0][s] for s in POOL}
+        m = Model(species=list(POOL), reactions=[reaction_tuple(rxs[0])], parameters=params, initial_condition_dict=ic)
+        m.py_initialize()
+        for r in rxs[1:]:
+            m.create_reaction(*reaction_tuple(r))
+            m.py_initialize()
+        return m
     params = list(PARAMS.items())
     rts = [reaction_tuple(r) for r in rxs]
     ic = {s: STATES[0][s] for s in POOL}
@@ -123,7 +134,7 @@ def check_model(c, item):
     try:
         m = build(rxs, decl)
     except Exception as e:
-        if decl[0] == 'explicit':
+        if decl[0] in ('explicit', 'incremental'):
             c.violation(key + 'build-exception', 'a valid reaction list with every species declared was rejected: %r' % e, case)
         else:
             c.count('rejected_undeclared')   # a rate refers to a species that this declaration style has not declared yet
@@ -244,7 +255,7 @@ def run(ctx):
     ctx.rule = ('E2: single reactions with every reactant x product sequence of length 0..4 over {A,B,C} (quick: 0..3, thinned beyond total '
                 'length 3), every propensity type x delay type x delayed reactant/product lists; ordered pairs (thorough: triples) from a '
                 '12-reaction menu; each under all declaration styles (6 explicit permutations, implicit by the reactions, via the initial '
-                'condition dictionary in two orders). Oracle: update arrays equal products minus reactants counted with multiplicity '
+                'condition dictionary in two orders, and incrementally: first reaction, initialise, then each further reaction followed by an initialisation). Oracle: update arrays equal products minus reactants counted with multiplicity '
                 '(exact), derivative equals (S+Sd).rate with closed-form rates at 5 states x 2 times (1e-12). Missing value: for every '
                 'parameter position a reaction can mention, the model without that value must fail to initialise, build an interface or '
                 'simulate. states = models; non-trivial = derivative non-zero somewhere; distinct by (reaction list, declaration).')
